@@ -317,7 +317,7 @@ def method_call(it, n, b, attr, args, kwargs, st):
         elif attr == "squeeze" and b.shape is not None:
             shape = tuple(x for x in b.shape if not (x is not None and x == 1))
         full = shape is not None and b.shape is not None and b.view == "whole"
-        return Val("arr", dep=bdep, cfg=b.cfg, shape=shape, obj=b.obj, view=("reshape" if b.obj is not None else None), dom=dict(b.dom), extra=("reshaped", b))
+        return Val("arr", dep=bdep, cfg=b.cfg, shape=shape, obj=b.obj, view=("reshape" if b.obj is not None else None), dom=dict(b.dom), extra=("reshaped", b), mayc=b.mayc)
     if attr in COPY_METHODS:
         shape = b.shape
         if attr == "flatten":
@@ -325,7 +325,10 @@ def method_call(it, n, b, attr, args, kwargs, st):
             shape = (p,) if p is not None else None
         if attr in ("tocsc", "tocsr", "tocoo", "toarray", "todense"):
             shape = None
-        return fresh(it, n, st, bdep | d, b.cfg and c, shape, alloc=attr)
+        r = fresh(it, n, st, bdep | d, b.cfg and c, shape, alloc=attr)
+        if attr in ("copy", "flatten", "astype") and b.dom.get("IDXR") is not None:
+            r.dom["IDXR"] = b.dom["IDXR"]
+        return r
     if attr in INPLACE_METHODS:
         if b.obj is not None:
             o = st.heap.get(b.obj) or st.heap.setdefault(b.obj, Obj(b.obj))
@@ -334,7 +337,7 @@ def method_call(it, n, b, attr, args, kwargs, st):
             else:
                 o.dep |= d | st.ctrl
             o.stored = True
-        it.emit("store", n, st, obj=b.obj, cell=b.obj if (isinstance(b.obj, tuple) and b.obj[0] in ("in", "out", "res", "partials", "self", "cfg", "global", "classattr")) else None, op="=" if attr == "fill" else "inplace:" + attr, val=args[0] if args else UNKNOWN, dep=d | st.ctrl, region="whole" if b.view == "whole" else None, whole=(b.view == "whole" and attr == "fill"), view=b.view, target=unparse(n.func.value), subs=(), sub_vals=(), base=b, method=attr)
+        it.emit("store", n, st, obj=b.obj, cell=b.obj if (isinstance(b.obj, tuple) and b.obj[0] in ("in", "out", "res", "partials", "self", "cfg", "global", "classattr")) else None, op="=" if attr == "fill" else "inplace:" + attr, val=args[0] if args else UNKNOWN, dep=d | st.ctrl, region="whole" if b.view == "whole" else None, whole=(b.view == "whole" and attr == "fill"), view=b.view, target=unparse(n.func.value), subs=(), sub_vals=(), base=b, method=attr, mayc=b.mayc)
         return NONE
     if attr in REDUCTIONS or attr in ("dot", "cumsum", "nonzero", "solve", "item", "tolist", "matvec", "rmatvec", "multiply"):
         shape = None
@@ -578,7 +581,10 @@ def numpy_call(it, n, name, short, args, kwargs, st, hd, c, cx):
             lo = a0.sym if a0.kind == "num" else None
             hi = args[1].sym if args[1].kind == "num" else None
         ln = sp.expand(hi - lo) if (hi is not None and lo is not None and len(args) < 3) else None
-        return fresh(it, n, st, hd, c, (ln,), alloc="arange", extra=("arange", lo, hi))
+        r = fresh(it, n, st, hd, c, (ln,), alloc="arange", extra=("arange", lo, hi))
+        if lo is not None and hi is not None and len(args) < 3:
+            r.dom["IDXR"] = (lo, hi)
+        return r
     if short == "linspace":
         nn = kwargs.get("num", args[2] if len(args) > 2 else None)
         ln = nn.sym if (nn is not None and nn.kind == "num") else (sp.Integer(50) if nn is None else None)
@@ -656,9 +662,9 @@ def numpy_call(it, n, name, short, args, kwargs, st, hd, c, cx):
         elif short == "broadcast_to":
             shape = shape_from_val(args[1]) if len(args) > 1 else None
         if a0.obj is not None:
-            return Val("arr", dep=heap_dep(a0, st) | hd, cfg=a0.cfg and c, shape=shape, obj=a0.obj, view="reshape" if short not in ("asarray", "asanyarray", "real") else a0.view, dom=dict(a0.dom), extra=("viewfn", short, a0))
+            return Val("arr", dep=heap_dep(a0, st) | hd, cfg=a0.cfg and c, shape=shape, obj=a0.obj, view="reshape" if short not in ("asarray", "asanyarray", "real") else a0.view, dom=dict(a0.dom), extra=("viewfn", short, a0), mayc=a0.mayc)
         kind = "num" if (a0.kind == "num" and short in ("real", "imag", "asarray") and a0.shape is None) else "arr"
-        return Val(kind, dep=hd, cfg=c, shape=shape, sym=a0.sym if (kind == "num" and short == "real") else None, cx=cx, extra=("viewfn", short, a0))
+        return Val(kind, dep=hd, cfg=c, shape=shape, sym=a0.sym if (kind == "num" and short == "real") else None, cx=cx, extra=("viewfn", short, a0), mayc=a0.mayc)
     if short in REDUCTIONS:
         shape = reduce_shape(a0.shape, kwargs.get("axis", args[1] if len(args) > 1 else None))
         if a0.kind == "num" and a0.shape is None:
@@ -678,7 +684,7 @@ def numpy_call(it, n, name, short, args, kwargs, st, hd, c, cx):
         if outv is not None and outv.obj is not None:
             o = st.heap.get(outv.obj) or st.heap.setdefault(outv.obj, Obj(outv.obj))
             o.dep |= hd | st.ctrl
-            it.emit("store", n, st, obj=outv.obj, cell=outv.obj if isinstance(outv.obj, tuple) and outv.obj[0] in ("in", "out", "res", "partials", "self", "cfg", "global") else None, op="out=", val=a0, dep=hd | st.ctrl, region=None, whole=False, view=outv.view, target=unparse(n)[:80], subs=(), sub_vals=(), base=outv, method="out=")
+            it.emit("store", n, st, obj=outv.obj, cell=outv.obj if isinstance(outv.obj, tuple) and outv.obj[0] in ("in", "out", "res", "partials", "self", "cfg", "global") else None, op="out=", val=a0, dep=hd | st.ctrl, region=None, whole=False, view=outv.view, target=unparse(n)[:80], subs=(), sub_vals=(), base=outv, method="out=", mayc=outv.mayc)
         kind = "num" if all((a.kind == "num" and a.shape is None) for a in args) else "arr"
         sym = None
         if kind == "num" and len(args) == 1 and a0.sym is not None and c:
@@ -728,7 +734,7 @@ def numpy_call(it, n, name, short, args, kwargs, st, hd, c, cx):
                 else:
                     o.dep |= hd | st.ctrl
                 o.stored = True
-            it.emit("store", n, st, obj=tgt.obj, cell=tgt.obj if isinstance(tgt.obj, tuple) and tgt.obj[0] in ("in", "out", "res", "partials", "self", "cfg", "global") else None, op="=" if short == "copyto" else "inplace:" + short, val=args[1] if len(args) > 1 else UNKNOWN, dep=hd | st.ctrl, region="whole" if (short == "copyto" and tgt.view == "whole") else None, whole=(short == "copyto" and tgt.view == "whole"), view=tgt.view, target=unparse(n)[:80], subs=(), sub_vals=(), base=tgt, method=short)
+            it.emit("store", n, st, obj=tgt.obj, cell=tgt.obj if isinstance(tgt.obj, tuple) and tgt.obj[0] in ("in", "out", "res", "partials", "self", "cfg", "global") else None, op="=" if short == "copyto" else "inplace:" + short, val=args[1] if len(args) > 1 else UNKNOWN, dep=hd | st.ctrl, region="whole" if (short == "copyto" and tgt.view == "whole") else None, whole=(short == "copyto" and tgt.view == "whole"), view=tgt.view, target=unparse(n)[:80], subs=(), sub_vals=(), base=tgt, method=short, mayc=tgt.mayc)
             return NONE
         if short in ("isclose", "allclose", "array_equal"):
             return Val("bool", dep=hd, cfg=c, cx=cx)
